@@ -18,7 +18,9 @@ RULE = ("Hypothesis draws logical contents (C01 generator: 17 data types incl. t
         "each other. Non-trivial: content with >=1 multi-byte value or property; distinct by SHA-1 of the case."
         ' With a drawn cut inside the last segment, the truncated big-endian and mixed encodings must deliver what the '
         'truncated little-endian encoding delivers (per access mode).'
-        ' Every chunk object of the lazy stream is read three times.')
+        ' Every chunk object of the lazy stream is read three times.'
+        ' DAQmx contents include digital lines of signed 8-bit and of 16 / 32-bit ports (aligned words, lines 0-7), '
+        're-encoded word by word.')
 ASSUMPTIONS = [
     "vf/encode.py writes big-endian segments per the NI layout: ToC mask always little-endian, every other field, "
     "property and raw value in segment byte order, timestamps as (i64 seconds, u64 fractions) when big-endian, complex "
